@@ -139,6 +139,10 @@ struct MinerView {
     cron_active: bool,
     claim: Option<(BigInt, BigInt)>,
     nlive: usize,
+    /// State.early_terminations (deadlines with early terminations still to be processed)
+    early_state: Vec<u64>,
+    /// the deadlines whose own early_terminations bitfield (partitions with queued early terminations) is non-empty
+    early_deadlines: Vec<u64>,
 }
 
 struct Run<'a> {
@@ -165,6 +169,7 @@ struct Run<'a> {
     seal: RegisteredSealProof,
     seal_ni: RegisteredSealProof,
     wpost: RegisteredPoStProof,
+    small: bool,
 }
 
 fn bump(cnt: &mut BTreeMap<String, u64>, k: &str, n: u64) {
@@ -247,8 +252,12 @@ impl<'a> Run<'a> {
         let mut parts = vec![];
         let mut nlive = 0usize;
         let mutate = self.mutate;
+        let mut dls_with_early: Vec<u64> = vec![];
         dls.for_each(store, |dl, deadline| {
             let posted = deadline.partitions_posted.clone();
+            if !deadline.early_terminations.is_empty() {
+                dls_with_early.push(dl);
+            }
             deadline.for_each(store, |idx, p| {
                 let live = p.live_sectors();
                 let active = p.active_sectors();
@@ -286,6 +295,8 @@ impl<'a> Run<'a> {
             cron_active: st.deadline_cron_active,
             claim: claim.map(|c| (c.raw_byte_power, c.quality_adj_power)),
             nlive,
+            early_state: bits(&st.early_terminations),
+            early_deadlines: dls_with_early,
         }
     }
 
@@ -315,6 +326,9 @@ impl<'a> Run<'a> {
             let v = &views[m];
             let id = self.miners[m].addr.id().unwrap();
             bmax(self.cnt, "max_sectors_per_miner", v.nlive as u64);
+            if v.early_state != v.early_deadlines {
+                self.fail("state-early-terminations-vs-deadlines", vec![format!("after {}: miner {} State.early_terminations = {:?} but the deadlines with queued early terminations are {:?}", after, id, v.early_state, v.early_deadlines)], json!({"miner": id}));
+            }
             let claim = match &v.claim {
                 Some(c) => PowerPair::new(c.0.clone(), c.1.clone()),
                 None => {
@@ -914,6 +928,11 @@ impl<'a> Run<'a> {
         let dl = if !mutable.is_empty() && r.chance(88) { *r.pick(&mutable) } else { r.below(self.policy.wpost_period_deadlines) };
         // prefer a deadline that already has sectors half of the time
         let dl = if r.chance(40) { self.views[m].parts.iter().map(|p| p.dl).filter(|d| mutable.contains(d)).next().unwrap_or(dl) } else { dl };
+        // 2KiB cases: fill up deadlines that already hold sectors, so that they get several partitions
+        let dl = if self.small && fixed.is_none() && r.chance(60) {
+            let have: Vec<u64> = self.views[m].parts.iter().map(|p| p.dl).filter(|d| mutable.contains(d)).collect();
+            if have.is_empty() { dl } else { *r.pick(&have) }
+        } else { dl };
         let dl = fixed.unwrap_or(dl);
         let mut sectors = vec![];
         for _ in 0..k {
@@ -993,7 +1012,9 @@ impl<'a> Run<'a> {
         let ss = subset(r, &bits(&p.live));
         let params = TerminateSectorsParams { terminations: vec![TerminationDeclaration { deadline: p.dl, partition: p.idx, sectors: bf(&ss) }] };
         let (worker, addr) = (self.miners[m].worker, self.miners[m].addr);
-        let res = self.send("terminate", format!("m{} dl{} p{} {:?}", m, p.dl, p.idx, ss), &worker, &addr, MM::TerminateSectors as u64, Some(params));
+        let exact = self.limit_exactly(r, ss.len() as u64);
+        let res = self.send("terminate", format!("m{} dl{} p{} {:?}{}", m, p.dl, p.idx, ss, if exact { " [addressed_sectors_max = number of sectors]" } else { "" }), &worker, &addr, MM::TerminateSectors as u64, Some(params));
+        self.limit_restore(exact, code(&res) == 0);
         if code(&res) == 0 {
             bump(self.cnt, "terminations", 1);
             bump(self.cnt, "sectors_terminated", ss.len() as u64);
@@ -1003,6 +1024,24 @@ impl<'a> Run<'a> {
             }
         }
         true
+    }
+
+    /// 1 termination in 3: for the duration of the message, policy.addressed_sectors_max is lowered to the
+    /// number of sectors declared, so that the early-termination batch processed inside the handler hits
+    /// the limit exactly at the end of the last deadline it touches.
+    fn limit_exactly(&mut self, r: &mut Prng, n: u64) -> bool {
+        if n == 0 || !r.chance(34) {
+            return false;
+        }
+        self.v.policy.addressed_sectors_max = n;
+        true
+    }
+
+    fn limit_restore(&mut self, exact: bool, accepted: bool) {
+        if exact {
+            self.v.policy.addressed_sectors_max = self.policy.addressed_sectors_max;
+            if accepted { bump(self.cnt, "terminations_with_batch_limit_hit_exactly", 1); }
+        }
     }
 
     /// Returns true when a multi-deadline TerminateSectors message was sent.
@@ -1036,7 +1075,9 @@ impl<'a> Run<'a> {
             }
             let params = TerminateSectorsParams { terminations };
             let (worker, addr) = (self.miners[m].worker, self.miners[m].addr);
-            let res = self.send("terminate_multi_deadline", format!("m{} {}", m, note.join(" + ")), &worker, &addr, MM::TerminateSectors as u64, Some(params));
+            let exact = self.limit_exactly(r, total);
+            let res = self.send("terminate_multi_deadline", format!("m{} {}{}", m, note.join(" + "), if exact { " [addressed_sectors_max = number of sectors]" } else { "" }), &worker, &addr, MM::TerminateSectors as u64, Some(params));
+            self.limit_restore(exact, code(&res) == 0);
             if code(&res) == 0 {
                 bump(self.cnt, "terminations", 1);
                 bump(self.cnt, "terminations_spanning_2plus_deadlines", 1);
@@ -1051,12 +1092,43 @@ impl<'a> Run<'a> {
     }
 
     fn op_extend(&mut self, m: usize, r: &mut Prng) -> bool {
-        let p = match self.pick_part(m, r, |p| !p.active.is_empty(), |p| self.is_mutable(m, p.dl)) { Some(p) => p, None => return false };
+        self.extend(m, r, false)
+    }
+
+    /// Scripted prelude of the 2KiB cases: 5-6 sectors NI-committed into ONE mutable deadline (3 partitions
+    /// of 2 sectors), one proving period of complete PoSts, then ONE ExtendSectorExpiration2 with
+    /// declarations for two or three partitions of that deadline.
+    fn scenario_two_partition_extension(&mut self, m: usize, r: &mut Prng) {
+        let mutable = self.mutable_deadlines(m);
+        if mutable.is_empty() {
+            return;
+        }
+        let d = *r.pick(&mutable);
+        self.op_ni_at(m, r, Some(d));
+        self.op_ni_at(m, r, Some(d));
+        self.op_ni_at(m, r, Some(d));
+        let per = self.policy.wpost_period_deadlines * self.miners.len() as u64;
+        let extra = r.below(per / 2 + 1);
+        self.advance(r, per + extra, 100);
+        let before = *self.cnt.get("extensions_of_2plus_partitions_of_one_deadline").unwrap_or(&0);
+        self.extend(m, r, true);
+        if *self.cnt.get("extensions_of_2plus_partitions_of_one_deadline").unwrap_or(&0) > before {
+            bump(self.cnt, "scripted_two_partition_extensions", 1);
+        }
+    }
+
+    fn extend(&mut self, m: usize, r: &mut Prng, force_multi: bool) -> bool {
+        let multi_dl = |p: &PartView| self.views[m].parts.iter().any(|q| q.dl == p.dl && q.idx != p.idx && !q.active.is_empty());
+        let p = if force_multi {
+            let c: Vec<PartView> = self.views[m].parts.iter().filter(|p| !p.active.is_empty() && self.is_mutable(m, p.dl) && multi_dl(p)).cloned().collect();
+            if c.is_empty() { None } else { Some((*r.pick(&c)).clone()) }
+        } else { None };
+        let p = match p { Some(p) => p, None => match self.pick_part(m, r, |p| !p.active.is_empty(), |p| self.is_mutable(m, p.dl)) { Some(p) => p, None => return false } };
         // one message with declarations for several partitions of the SAME deadline (the handler groups
         // the declarations by deadline and re-registers every touched partition at the new epoch)
         let mut chosen: Vec<PartView> = vec![p.clone()];
         let others: Vec<PartView> = self.views[m].parts.iter().filter(|q| q.dl == p.dl && q.idx != p.idx && !q.active.is_empty()).cloned().collect();
-        if !others.is_empty() && r.chance(75) {
+        if !others.is_empty() && (force_multi || r.chance(75)) {
             let k = 1 + r.below((others.len() as u64).min(2)) as usize;
             let mut o = others;
             for i in (1..o.len()).rev() { let j = r.below(i as u64 + 1) as usize; o.swap(i, j); }
@@ -1110,7 +1182,11 @@ impl<'a> Run<'a> {
         // sectors past their expiration epoch (awaiting the deadline-end cron) only 1 time in 10
         let allow_expired = r.chance(10);
         let is_cc = |i: &SectorOnChainInfo| i.deal_weight.is_zero() && i.verified_deal_weight.is_zero() && (allow_expired || i.expiration > e);
-        let p = match self.pick_part(m, r, |p| p.infos.iter().any(|i| p.active.get(i.sector_number) && is_cc(i)), |p| self.is_mutable(m, p.dl)) { Some(p) => p, None => return false };
+        // VERIF_MP_DISPUTE_BIAS=1 (witness search, off in ./check): prefer sectors of a deadline whose last,
+        // optimistically accepted PoSt carried an invalid proof and is still open to dispute
+        let bias = std::env::var("VERIF_MP_DISPUTE_BIAS").is_ok();
+        let open_disputes: Vec<u64> = self.miners[m].invalid_posts.iter().filter(|(_, close)| *close <= e).map(|(d, _)| *d).collect();
+        let p = match self.pick_part(m, r, |p| p.infos.iter().any(|i| p.active.get(i.sector_number) && is_cc(i)), |p| self.is_mutable(m, p.dl) && (!bias || open_disputes.contains(&p.dl))) { Some(p) => p, None => return false };
         let cands: Vec<&SectorOnChainInfo> = p.infos.iter().filter(|i| p.active.get(i.sector_number) && is_cc(i)).collect();
         let info = (*r.pick(&cands)).clone();
         let s = info.sector_number;
@@ -1137,6 +1213,9 @@ impl<'a> Run<'a> {
                 self.rebased_after_expiry.insert(s);
             }
             if !claims.is_empty() { self.miners[m].claims.insert(s, claims); }
+            if bias && open_disputes.contains(&p.dl) {
+                self.op_dispute(m, r);
+            }
         }
         true
     }
@@ -1325,7 +1404,8 @@ fn run_case(seed: u64, index: usize, len: usize, r: &mut Prng, stats: &mut Stats
         v.policy.valid_pre_commit_proof_type.insert(seal);
         v.policy.valid_prove_commit_ni_proof_type.insert(seal_ni);
         v.policy.valid_post_proof_type.insert(wpost);
-        v.policy.minimum_verified_allocation_size = BigInt::from(256);
+        // (verified allocations are below the registry's minimum size with 2KiB sectors: these cases carry
+        // unverified data only)
         // a deadline's partitions are all proven in one message
         v.policy.posted_partitions_max = 64;
         bump(cnt, "cases_2KiB_proofs_partitions_of_2_sectors", 1);
@@ -1387,6 +1467,7 @@ fn run_case(seed: u64, index: usize, len: usize, r: &mut Prng, stats: &mut Stats
         seal,
         seal_ni,
         wpost,
+        small,
     };
     run.drain();
     run.monitor("setup");
@@ -1400,6 +1481,10 @@ fn run_case(seed: u64, index: usize, len: usize, r: &mut Prng, stats: &mut Stats
     if index % 3 == 0 {
         let m = r.below(n_miners as u64) as usize;
         run.scenario_two_deadline_termination(m, r);
+    }
+    if small {
+        let m = r.below(n_miners as u64) as usize;
+        run.scenario_two_partition_extension(m, r);
     }
 
     for step in 0..len {
